@@ -1,0 +1,94 @@
+//go:build verif
+// +build verif
+
+/*
+   Verification hooks (build tag "verif"): a thin exported wrapper around the unexported
+   endpoint-selection state machine, used only by the external verification harness.
+*/
+
+package client
+
+// VerifEndpoint is the projection of one endpoint object.
+type VerifEndpoint struct {
+	URL       string
+	Secondary bool // nodeType == secondary
+	Dead      bool
+}
+
+// VerifTopology wraps the client's topology.
+type VerifTopology struct{ t *topology }
+
+func VerifNewTopology(attemptToRevive bool) *VerifTopology {
+	return &VerifTopology{newTopology(attemptToRevive)}
+}
+
+func (v *VerifTopology) Update(primary string, secondaries ...string) {
+	v.t.Update(primary, secondaries...)
+}
+
+// NextRead returns the index (in the endpoint list, -1 if it is not listed) and url chosen.
+func (v *VerifTopology) NextRead(pref ReadPref) (int, string, error) {
+	e, err := v.t.NextReadEndpoint(pref)
+	if err != nil {
+		return -1, "", err
+	}
+	return v.indexOf(e), e.URL(), nil
+}
+
+func (v *VerifTopology) Primary() (string, bool, error) {
+	e, err := v.t.Primary()
+	if e == nil {
+		return "", false, err
+	}
+	return e.URL(), e.IsDead(), err
+}
+
+func (v *VerifTopology) indexOf(e *endpoint) int {
+	for i, x := range v.t.endpoints {
+		if x == e {
+			return i
+		}
+	}
+	return -1
+}
+
+// Mark changes the dead flag of the i-th listed endpoint (i < 0: the primary object).
+func (v *VerifTopology) Mark(i int, what string) bool {
+	var e *endpoint
+	if i < 0 {
+		e = v.t.primary
+	} else if i < len(v.t.endpoints) {
+		e = v.t.endpoints[i]
+	}
+	if e == nil {
+		return false
+	}
+	switch what {
+	case "dead":
+		e.MarkAsDead()
+	case "alive":
+		e.MarkAsAlive()
+	case "healthy":
+		e.MarkAsHealthy()
+	}
+	return true
+}
+
+// State returns the listed endpoints, the index of the primary object in the list (-1: not
+// listed, -2: no primary), the primary's projection and the round-robin cursor.
+func (v *VerifTopology) State() ([]VerifEndpoint, int, VerifEndpoint, int) {
+	out := make([]VerifEndpoint, len(v.t.endpoints))
+	for i, e := range v.t.endpoints {
+		out[i] = VerifEndpoint{e.url, e.nodeType == secondary, e.dead}
+	}
+	pi := -2
+	var p VerifEndpoint
+	if v.t.primary != nil {
+		pi = v.indexOf(v.t.primary)
+		p = VerifEndpoint{v.t.primary.url, v.t.primary.nodeType == secondary, v.t.primary.dead}
+	}
+	return out, pi, p, v.t.cIndex
+}
+
+func (v *VerifTopology) HasActivePrimary() bool  { return v.t.HasActivePrimary() }
+func (v *VerifTopology) HasActiveEndpoint() bool { return v.t.HasActiveEndpoint() }
